@@ -20,6 +20,7 @@ import (
 	"context"
 	"fmt"
 	"reflect"
+	"sort"
 	"strings"
 	"sync"
 	"sync/atomic"
@@ -41,8 +42,10 @@ type SessionWindow struct {
 	timeout time.Duration
 	// mu is used to protect concurrent access to window data
 	mu sync.RWMutex
-	// sessionMap stores session data for different keys
-	sessionMap map[string]*session
+	// sessionMap stores the open sessions of each key. A key has several open sessions
+	// while events more than the timeout apart are waiting for the watermark (or the
+	// expiry tick) to pass their session's end.
+	sessionMap map[string][]*session
 	// outputChan is a channel for sending data when window triggers
 	outputChan chan []types.Row
 	// callback is an optional callback function called when window triggers
@@ -134,7 +137,7 @@ func NewSessionWindow(config types.WindowConfig) (*SessionWindow, error) {
 	return &SessionWindow{
 		config:            config,
 		timeout:           timeout,
-		sessionMap:        make(map[string]*session),
+		sessionMap:        make(map[string][]*session),
 		outputChan:        make(chan []types.Row, bufferSize),
 		ctx:               ctx,
 		cancelFunc:        cancel,
@@ -193,8 +196,8 @@ func (sw *SessionWindow) Add(data any) {
 			if sw.watermark.IsEventTimeLate(timestamp) {
 				allowedLateness := sw.config.AllowedLateness
 				if allowedLateness > 0 {
-					// Absorb into a still-open triggered session (append + re-emit);
-					// done if absorbed.
+					// Absorb into a still-open triggered session of the same key (append +
+					// re-emit); done if absorbed.
 					if sw.handleLateData(row) {
 						return
 					}
@@ -214,43 +217,82 @@ func (sw *SessionWindow) Add(data any) {
 	// Extract session key (supports multiple group by keys)
 	key := extractSessionCompositeKey(data, sw.config.GroupByKeys)
 
-	// Get or create session
-	s, exists := sw.sessionMap[key]
-	if !exists {
-		// Create new session
+	// The event joins every open session of its key that it is within the timeout of
+	// (before its first or after its last event); sessions it bridges are merged. An
+	// event further than the timeout from all of them starts a new session - also when
+	// an older session of the key is still waiting to be emitted.
+	var target *session
+	open := sw.sessionMap[key]
+	kept := open[:0]
+	for _, s := range open {
+		// (A session covers [first, last+timeout): an event exactly at its end starts a new
+		// session, which is also what happens once the watermark - expiry at watermark >=
+		// end - has closed it, so the outcome does not depend on timing.)
+		joins := timestamp.After(s.slot.Start.Add(-sw.timeout)) && timestamp.Before(s.lastActive.Add(sw.timeout))
+		switch {
+		case !joins:
+			kept = append(kept, s)
+		case target == nil:
+			target = s
+			kept = append(kept, s)
+		default:
+			sw.mergeSessions(target, s)
+		}
+	}
+	for i := len(kept); i < len(open); i++ {
+		open[i] = nil
+	}
+	if target == nil {
 		// Use the actual timestamp of the first data point as session start
 		// No alignment needed - session starts from when first data arrives
 		start := timestamp
 		end := start.Add(sw.timeout)
-		slot := types.NewTimeSlot(&start, &end)
-
-		s = &session{
+		target = &session{
 			data:       []types.Row{},
 			lastActive: timestamp,
-			slot:       slot,
+			slot:       types.NewTimeSlot(&start, &end),
 		}
-		sw.sessionMap[key] = s
+		kept = append(kept, target)
 	} else {
 		// An out-of-order (but accepted) event earlier than the session's first
 		// event moves the session start back: window_start is the earliest event.
-		if s.slot.Start != nil && timestamp.Before(*s.slot.Start) {
+		if timestamp.Before(*target.slot.Start) {
 			newStart := timestamp
-			s.slot.Start = &newStart
+			target.slot.Start = &newStart
 		}
 		// Update session end time
-		if timestamp.After(s.lastActive) {
-			s.lastActive = timestamp
+		if timestamp.After(target.lastActive) {
+			target.lastActive = timestamp
 			// Extend session end time
 			newEnd := timestamp.Add(sw.timeout)
-			if newEnd.After(*s.slot.End) {
-				s.slot.End = &newEnd
+			if newEnd.After(*target.slot.End) {
+				target.slot.End = &newEnd
 			}
 		}
 	}
+	sw.sessionMap[key] = kept
 
 	// Add data to session
-	row.Slot = s.slot
-	s.data = append(s.data, row)
+	row.Slot = target.slot
+	target.data = append(target.data, row)
+}
+
+// mergeSessions moves the rows of src into dst (an event bridged the two) and widens
+// dst to cover both. Caller holds sw.mu.
+func (sw *SessionWindow) mergeSessions(dst, src *session) {
+	if src.slot.Start.Before(*dst.slot.Start) {
+		dst.slot.Start = src.slot.Start
+	}
+	if src.lastActive.After(dst.lastActive) {
+		dst.lastActive = src.lastActive
+	}
+	if src.slot.End.After(*dst.slot.End) {
+		dst.slot.End = src.slot.End
+	}
+	for _, r := range src.data {
+		r.Slot = dst.slot
+		dst.data = append(dst.data, r)
+	}
 }
 
 // Start starts the session window's periodic check mechanism
@@ -403,37 +445,58 @@ func (sw *SessionWindow) checkAndTriggerSessions(watermarkTime time.Time) {
 }
 
 func (sw *SessionWindow) collectExpiredSessions(currentTime time.Time) [][]types.Row {
-	expiredKeys := []string{}
-	for key, s := range sw.sessionMap {
-		// For event time, use slot.End to determine if session expired
-		// Session expires when watermark >= session end time
-		// For processing time, use lastActive + timeout
-		if s.slot.End != nil && !currentTime.Before(*s.slot.End) {
-			expiredKeys = append(expiredKeys, key)
-		} else if currentTime.Sub(s.lastActive) > sw.timeout {
-			expiredKeys = append(expiredKeys, key)
-		}
+	type expired struct {
+		key string
+		s   *session
 	}
-
-	resultsToSend := make([][]types.Row, 0)
-	allowedLateness := sw.config.AllowedLateness
-
-	for _, key := range expiredKeys {
-		s := sw.sessionMap[key]
-		if len(s.data) > 0 {
-			result := make([]types.Row, len(s.data))
-			copy(result, s.data)
-			resultsToSend = append(resultsToSend, result)
-
-			if allowedLateness > 0 {
-				closeTime := s.slot.End.Add(allowedLateness)
-				sw.triggeredSessions[key] = &sessionInfo{
-					session:   s,
-					closeTime: closeTime,
-				}
+	var done []expired
+	for key, sessions := range sw.sessionMap {
+		kept := sessions[:0]
+		for _, s := range sessions {
+			// For event time, use slot.End to determine if session expired
+			// Session expires when watermark >= session end time
+			// For processing time, use lastActive + timeout
+			if (s.slot.End != nil && !currentTime.Before(*s.slot.End)) || currentTime.Sub(s.lastActive) > sw.timeout {
+				done = append(done, expired{key, s})
+			} else {
+				kept = append(kept, s)
 			}
 		}
-		delete(sw.sessionMap, key)
+		for i := len(kept); i < len(sessions); i++ {
+			sessions[i] = nil
+		}
+		if len(kept) == 0 {
+			delete(sw.sessionMap, key)
+		} else {
+			sw.sessionMap[key] = kept
+		}
+	}
+	// Deterministic output order: by session end, then key.
+	sort.Slice(done, func(i, j int) bool {
+		if !done[i].s.slot.End.Equal(*done[j].s.slot.End) {
+			return done[i].s.slot.End.Before(*done[j].s.slot.End)
+		}
+		return done[i].key < done[j].key
+	})
+
+	resultsToSend := make([][]types.Row, 0, len(done))
+	allowedLateness := sw.config.AllowedLateness
+	for _, e := range done {
+		s := e.s
+		if len(s.data) == 0 {
+			continue
+		}
+		result := make([]types.Row, len(s.data))
+		copy(result, s.data)
+		resultsToSend = append(resultsToSend, result)
+
+		if allowedLateness > 0 {
+			closeTime := s.slot.End.Add(allowedLateness)
+			sw.triggeredSessions[fmt.Sprintf("%s\x00%d", e.key, s.slot.Start.UnixNano())] = &sessionInfo{
+				session:   s,
+				closeTime: closeTime,
+			}
+		}
 	}
 
 	return resultsToSend
@@ -519,16 +582,18 @@ func (sw *SessionWindow) Trigger() {
 
 	// Collect all results first
 	resultsToSend := make([][]types.Row, 0)
-	for _, s := range sw.sessionMap {
-		if len(s.data) > 0 {
-			// Trigger session window
-			result := make([]types.Row, len(s.data))
-			copy(result, s.data)
-			resultsToSend = append(resultsToSend, result)
+	for _, sessions := range sw.sessionMap {
+		for _, s := range sessions {
+			if len(s.data) > 0 {
+				// Trigger session window
+				result := make([]types.Row, len(s.data))
+				copy(result, s.data)
+				resultsToSend = append(resultsToSend, result)
+			}
 		}
 	}
 	// Clear all sessions
-	sw.sessionMap = make(map[string]*session)
+	sw.sessionMap = make(map[string][]*session)
 
 	// Capture callback under the lock; release before sending to avoid blocking.
 	callback := sw.callback
@@ -578,7 +643,7 @@ func (sw *SessionWindow) Reset() {
 	}
 
 	// Clear session data
-	sw.sessionMap = make(map[string]*session)
+	sw.sessionMap = make(map[string][]*session)
 	sw.triggeredSessions = make(map[string]*sessionInfo)
 	sw.initialized = false
 	sw.initChan = make(chan struct{})
@@ -601,13 +666,20 @@ func (sw *SessionWindow) SetCallback(callback func([]types.Row)) {
 // held (the "Locked" convention — re-entering the non-reentrant mutex would
 // deadlock). Returns true if the event was absorbed into a triggered session.
 func (sw *SessionWindow) handleLateData(row types.Row) bool {
+	key := extractSessionCompositeKey(row.Data, sw.config.GroupByKeys)
 	for _, info := range sw.triggeredSessions {
-		if info.session.slot.Contains(row.Timestamp) {
-			// Append the late event before re-emitting so the update includes it.
-			info.session.data = append(info.session.data, row)
-			sw.triggerLateUpdateLocked(info.session)
-			return true
+		if !info.session.slot.Contains(row.Timestamp) {
+			continue
 		}
+		// Only a session of the event's own key may absorb it.
+		if len(info.session.data) > 0 && extractSessionCompositeKey(info.session.data[0].Data, sw.config.GroupByKeys) != key {
+			continue
+		}
+		// Append the late event before re-emitting so the update includes it.
+		row.Slot = info.session.slot
+		info.session.data = append(info.session.data, row)
+		sw.triggerLateUpdateLocked(info.session)
+		return true
 	}
 	return false
 }
